@@ -218,10 +218,12 @@ def run_property(pid, rules_mod, repo="/repo", tier="quick", configs=None, seed=
         out.write("ANALYSIS-BROKEN property=%s %s\n" % (pid, status_broken))
         code = 2
     if new_viol:
-        os.makedirs(replay_dir, exist_ok=True)
+        if write_evidence:
+            os.makedirs(replay_dir, exist_ok=True)
         for r in new_viol:
             rp = os.path.join(replay_dir, "%s.json" % r["rule"].replace("/", "_"))
-            json.dump([x for x in new_viol if x["rule"] == r["rule"]], open(rp, "w"), indent=1)
+            if write_evidence:      # scratch-copy runs of the self-test do not leave replay files behind
+                json.dump([x for x in new_viol if x["rule"] == r["rule"]], open(rp, "w"), indent=1)
             out.write("VIOLATION property=%s replay=%s\n" % (pid, rp))
             out.write("  rule %s instance %s [%s]: %s\n" % (r["rule"], r["instance"], r["config"], r["msg"]))
             for s in r["sites"]:
